@@ -58,7 +58,7 @@ helper("peg.linecol_search", "get_linecol_from_position", "h_linecol",
 
 # ---- peg_rule: per-opcode harnesses (plain mode, recursion replaced by the asserting/assuming contract stub) ----
 REPL = ["peg_rule:peg_rule_stub", "janet_array_push:h_array_push", "janet_buffer_push_u8:h_buffer_push_u8",
-        "janet_to_string_b:h_to_string_b", "janet_buffer_push_bytes:h_buffer_push_bytes", "janet_stringv:h_stringv",
+        "janet_to_string_b:h_to_string_b", "janet_buffer_push_bytes:h_buffer_push_bytes", "janet_string:h_string",
         "janet_scan_number_base:h_scan_number_base", "memcmp:h_memcmp", "safe_memcpy:h_safe_memcpy", "janet_array:h_array",
         "get_linecol_from_position:h_linecol", "janet_call:h_call"]
 HLOOPS = {"peg_wf_chain.0": 6, "peg_wf_args.0": 25, "peg_inv_consts.0": 4, "peg_inv_tcaps.0": 5}
@@ -66,7 +66,7 @@ ASSUMES = ["recursive calls of peg_rule obey peg_rule's own contract (stub peg_r
            "bytecode is wf_peg along the top rule and its tail-call chain (instruction well-formed, rule operands are instruction starts, constant operands in range, argument index >= 0, readint width <= 8): established by the compiler's emitters / peg_unmarshal",
            "capture stacks have capacity 4 (accumulator 6) in the harness: paths that push beyond are cut; contents of pushed values are arbitrary",
            "tagged string captures refer to a valid string object; C functions stored as constants accept (argc, argv)",
-           "janet_stringv / janet_scan_number_base / memcmp / safe_memcpy / janet_array / get_linecol_from_position / janet_call replaced by stubs that assert readability of every (pointer,length) pair they are given and return arbitrary values",
+           "janet_string / janet_scan_number_base / memcmp / safe_memcpy / janet_array / get_linecol_from_position / janet_call replaced by stubs that assert readability of every (pointer,length) pair they are given and return arbitrary values",
            "compiled with -DJANET_NO_NANBOX (documented tagged-struct configuration of the same sources)"]
 
 
@@ -89,10 +89,171 @@ def opunit(name, op, clause, mutants, unwind=3, recurses=True, tail_not="RULE_LE
     units.append(u)
 
 
-opunit("choice", "RULE_CHOICE",
-       "choice: every alternative is tried at the same text position one level deeper with the capture stacks cut back to the saved CapState after each failed alternative (also before the tail call of the last one); depth, mode and window restored; result in window",
-       [dict(name="choice-no-cutback", file="peg.c", find="                    return result;\n                }\n                cap_load(s, cs);\n            }", replace="                    return result;\n                }\n            }", expect="BACKTRACK"),
-        dict(name="choice-depth-leak", file="peg.c", find="                if (result) {\n                    up1(s);\n                    return result;", replace="                if (result) {\n                    return result;", expect="RESTORE")])
+# ---- tail-call gotos of peg_rule: CBMC numbers every backward goto as its own loop. A unit lets only the tail goto of
+# ITS opcode be taken (once); all other `goto tail` are cut (unwind 1). Reason: two different tail gotos merging their
+# `rule` pointers at the label crash the simplifier of cbmc 6.11 (infinite recursion in simplify_byte_extract), and the
+# alternative --no-simplify does not finish. The loop ids are recomputed from the source here; re-run after editing peg.c.
+import subprocess, re, tempfile
+def tail_loops():
+    src = open('/repo/src/core/peg.c').read().split('\n')
+    tails = {}
+    for ln, line in enumerate(src, 1):
+        if line.strip() == 'goto tail;':
+            k = ln
+            while not re.match(r'\s*case (RULE_\w+):', src[k - 1]):
+                k -= 1
+            tails[ln] = re.match(r'\s*case (RULE_\w+):', src[k - 1]).group(1)
+    d = tempfile.mkdtemp()
+    gb = os.path.join(d, 'p.gb')
+    subprocess.run(['goto-cc', '-std=c99', '-I/repo/src/include', '-I/repo/_build', '-iquote', '/repo/src/core', '-D_FILE_OFFSET_BITS=64',
+                    '-c', '/repo/src/core/peg.c', '-o', gb], check=True, capture_output=True)
+    out = subprocess.run(['cbmc', '--show-loops', gb], capture_output=True, text=True).stdout
+    ids = {}
+    for m in re.finditer(r'Loop (peg_rule\.\d+):\n\s+file \S+ line (\d+)', out):
+        if int(m.group(2)) in tails:
+            ids[tails[int(m.group(2))]] = m.group(1)
+    import shutil; shutil.rmtree(d)
+    assert len(ids) == len(tails) == 5, (ids, tails)
+    return ids
+TAILS = tail_loops()   # e.g. {'RULE_CHOICE': 'peg_rule.3', ...}
+
+M = lambda name, find, replace, expect: dict(name=name, file="peg.c", find=find, replace=replace, expect=expect)
+OPS = [
+ # name, opcode, recurses, unwind, defines, clause, mutants
+ ("literal", "RULE_LITERAL", False, 3, ["PEG_SEM_LITERAL"],
+  "literal: compares only bytes inside the current window (length check before memcmp), a match consumes exactly len bytes",
+  [M("literal-no-length-check", "            if (text + len > s->text_end) return NULL;\n            return memcmp(text, rule + 2, len) ? NULL : text + len;", "            return memcmp(text, rule + 2, len) ? NULL : text + len;", "WINDOW|SEM")]),
+ ("nchar", "RULE_NCHAR", False, 3, ["PEG_SEM_NCHAR"],
+  "n: matches iff at least n bytes remain in the (sub-)window and consumes exactly n; nothing else changes",
+  [M("nchar-outer-end", "return (text + n > s->text_end) ? NULL : text + n;", "return (text + n > s->outer_text_end) ? NULL : text + n;", "WINDOW|SEM")]),
+ ("notnchar", "RULE_NOTNCHAR", False, 3, ["PEG_SEM_NOTNCHAR", "PEG_CONSUMES_NOTHING"],
+  "-n: matches iff fewer than n bytes remain in the window and consumes nothing",
+  [M("notnchar-off-by-one", "return (text + n > s->text_end) ? text : NULL;", "return (text + n >= s->text_end) ? text : NULL;", "SEM")]),
+ ("range", "RULE_RANGE", False, 3, ["PEG_SEM_RANGE"],
+  "range: reads text[0] only when text < text_end; matches exactly one byte in [lo,hi]",
+  [M("range-no-end-check", "return (text < s->text_end &&\n                    text[0] >= lo &&", "return (text[0] >= lo &&", "pointer_dereference|SEM")]),
+ ("set", "RULE_SET", False, 3, ["PEG_SEM_SET"],
+  "set: reads text[0] only when text < text_end; the bitmap word index stays inside the 8-word operand; matches exactly one member byte",
+  [M("set-no-end-check", "            if (text >= s->text_end) return NULL;\n            uint32_t word", "            uint32_t word", "pointer_dereference|SEM")]),
+ ("backmatch", "RULE_BACKMATCH", False, 6, [],
+  "backmatch: the tag search stays inside the tag stack, the back-referenced string is compared only against bytes inside the window",
+  [M("backmatch-no-length-check", "                    if (text + len > s->text_end)\n                        return NULL;\n", "", "WINDOW")]),
+ ("readint", "RULE_READINT", False, 9, ["PEG_SEM_READINT", "PEG_SUCCESS_ONE_CAPTURE"],
+  "int/uint: reads exactly width (<= 8) bytes, all inside the window, consumes width and captures one value",
+  [M("readint-no-length-check", "            if (text + width > s->text_end) return NULL;\n", "", "pointer_dereference|SEM")]),
+ ("gettag", "RULE_GETTAG", False, 6, ["PEG_CONSUMES_NOTHING", "PEG_SUCCESS_ONE_CAPTURE"],
+  "backref (->): searches the tag stack from the top inside its bounds, re-captures the tagged value (one capture), consumes nothing",
+  [M("gettag-starts-at-count", "            for (int32_t i = s->tags->count - 1; i >= 0; i--) {\n                if (s->tags->data[i] == search) {\n                    pushcap(", "            for (int32_t i = s->tags->count; i >= 0; i--) {\n                if (s->tags->data[i] == search) {\n                    pushcap(", "pointer_dereference|array_bounds")]),
+ ("position", "RULE_POSITION", False, 3, ["PEG_CONSUMES_NOTHING", "PEG_SUCCESS_ONE_CAPTURE"],
+  "position ($): captures one value and consumes nothing",
+  [M("position-not-captured", "            pushcap(s, janet_wrap_number((double)(text - s->text_start)), rule[1]);\n", "", "SEM")]),
+ ("line", "RULE_LINE", False, 3, ["PEG_CONSUMES_NOTHING", "PEG_SUCCESS_ONE_CAPTURE"],
+  "line: asks the line map for a position inside the text, captures one value, consumes nothing",
+  [M("line-not-captured", "            pushcap(s, janet_wrap_number((double)(lc.line)), rule[1]);\n", "", "SEM")]),
+ ("column", "RULE_COLUMN", False, 3, ["PEG_CONSUMES_NOTHING", "PEG_SUCCESS_ONE_CAPTURE"],
+  "column: asks the line map for a position inside the text, captures one value, consumes nothing",
+  [M("column-not-captured", "            pushcap(s, janet_wrap_number((double)(lc.col)), rule[1]);\n", "", "SEM")]),
+ ("argument", "RULE_ARGUMENT", False, 3, ["PEG_CONSUMES_NOTHING", "PEG_SUCCESS_ONE_CAPTURE"],
+  "argument: reads extrav[index] only for index < extrac (nil otherwise), captures one value, consumes nothing",
+  [M("argument-index-off-by-one", "Janet capture = (index >= s->extrac) ? janet_wrap_nil() : s->extrav[index];", "Janet capture = (index > s->extrac) ? janet_wrap_nil() : s->extrav[index];", "pointer_dereference|array_bounds")]),
+ ("constant", "RULE_CONSTANT", False, 3, ["PEG_CONSUMES_NOTHING", "PEG_SUCCESS_ONE_CAPTURE"],
+  "constant: reads the constant table inside its bounds, captures one value, consumes nothing",
+  [M("constant-operand-mixup", "pushcap(s, s->constants[rule[1]], rule[2]);", "pushcap(s, s->constants[rule[2]], rule[2]);", "pointer_dereference|array_bounds")]),
+ ("look", "RULE_LOOK", True, 3, ["PEG_CONSUMES_NOTHING"],
+  "look: the shifted start is checked against [text_start, text_end] before the sub-match; the rule consumes nothing; depth restored",
+  [M("look-position-not-restored", "            text -= ((int32_t *)rule)[1];\n", "", "SEM|WINDOW")]),
+ ("choice", "RULE_CHOICE", True, 3, [],
+  "choice: every alternative is tried at the same position one level deeper with the capture stacks cut back to the saved CapState after each failed alternative (also before the tail call of the last one); depth, mode and window restored; result in window",
+  [M("choice-no-cutback", "                    return result;\n                }\n                cap_load(s, cs);\n            }", "                    return result;\n                }\n            }", "BACKTRACK"),
+   M("choice-depth-leak", "                if (result) {\n                    up1(s);\n                    return result;", "                if (result) {\n                    return result;", "RESTORE")]),
+ ("sequence", "RULE_SEQUENCE", True, 3, [],
+  "sequence: each element starts where the previous one ended (inside the window) and no element is tried after a failure; depth restored before the tail call",
+  [M("sequence-continues-after-failure", "for (uint32_t i = 0; text && i < len - 1; i++)", "for (uint32_t i = 0; i < len - 1; i++)", "WINDOW")]),
+ ("if", "RULE_IF", True, 3, [],
+  "if: condition matched one level deeper, depth restored before the tail call of the body; failure of the condition fails the rule",
+  [M("if-depth-leak", "            const uint8_t *result = peg_rule(s, rule_a, text);\n            up1(s);\n            if (!result) return NULL;\n            rule = rule_b;", "            const uint8_t *result = peg_rule(s, rule_a, text);\n            if (!result) return NULL;\n            rule = rule_b;", "RESTORE")]),
+ ("ifnot", "RULE_IFNOT", True, 3, [],
+  "if-not: captures of the failed condition are cut back to the saved CapState before the body runs; depth restored",
+  [M("ifnot-no-cutback", "            } else {\n                cap_load(s, cs);\n                up1(s);\n                rule = rule_b;", "            } else {\n                up1(s);\n                rule = rule_b;", "BACKTRACK")]),
+ ("not", "RULE_NOT", True, 3, ["PEG_CONSUMES_NOTHING", "PEG_SUCCESS_RESTORES_ALL"],
+  "not: succeeds only when the sub-match fails, then consumes nothing and leaves the capture stacks at the saved CapState; depth restored",
+  [M("not-no-cutback", "            } else {\n                cap_load(s, cs);\n                up1(s);\n                return text;", "            } else {\n                up1(s);\n                return text;", "BACKTRACK|SEM")]),
+ ("thru", "RULE_THRU", True, 3, ["PEG_FAIL_RESTORES"],
+  "thru: every failed attempt is cut back before the next position is tried; attempts start inside [text, text_end]; overall failure leaves the saved CapState",
+  [M("thru-no-cutback-between-attempts", "                cap_load(s, cs2);\n                text++;", "                text++;", "BACKTRACK")]),
+ ("to", "RULE_TO", True, 3, ["PEG_FAIL_RESTORES", "PEG_SUCCESS_RESTORES_ALL"],
+  "to: as thru, and on success the captures of the terminator are discarded as well (the terminator is not consumed)",
+  [M("to-keeps-terminator-captures", "                    if (rule[0] == RULE_TO) cap_load(s, cs2);\n", "", "SEM")]),
+ ("between", "RULE_BETWEEN", True, 3, ["PEG_FAIL_RESTORES"],
+  "between/repeat: the captures of the failed last repetition are cut back; fewer than lo repetitions fail and leave the saved CapState; every repetition starts where the previous ended",
+  [M("between-no-cutback", "                    cap_load(s, cs2);\n                    break;", "                    break;", "BACKTRACK"),
+   M("between-fail-keeps-captures", "            if (captured < lo) {\n                cap_load(s, cs);\n                return NULL;", "            if (captured < lo) {\n                return NULL;", "BACKTRACK")]),
+ ("capture", "RULE_CAPTURE", True, 3, [],
+  "capture (<-): the captured span is exactly [text, result) inside the window; depth restored",
+  [M("capture-wrong-span", "pushcap(s, janet_stringv(text, (int32_t)(result - text)), tag);", "pushcap(s, janet_stringv(text, (int32_t)(result - s->text_start)), tag);", "WINDOW")]),
+ ("capture_num", "RULE_CAPTURE_NUM", True, 3, [],
+  "number: scans exactly the matched span [text, result) inside the window; depth restored",
+  [M("number-wrong-span", "if (janet_scan_number_base(text, (int32_t)(result - text), base, &x)) return NULL;", "if (janet_scan_number_base(text, (int32_t)(result - s->text_start), base, &x)) return NULL;", "WINDOW")]),
+ ("accumulate", "RULE_ACCUMULATE", True, 3, [],
+  "accumulate (%): the mode is restored on success and failure; the accumulated span handed on lies inside the scratch buffer; depth restored",
+  [M("accumulate-mode-leak", "            up1(s);\n            s->mode = oldmode;\n            if (!result) return NULL;\n            Janet cap = janet_stringv(s->scratch->data + cs.scratch,", "            up1(s);\n            if (!result) return NULL;\n            Janet cap = janet_stringv(s->scratch->data + cs.scratch,", "RESTORE")]),
+ ("drop", "RULE_DROP", True, 3, ["PEG_SUCCESS_RESTORES_ALL"],
+  "drop: on success every capture of the sub-pattern (positional, accumulated, tagged) is discarded; depth restored",
+  [M("drop-keeps-captures", "            cap_load(s, cs);\n            return result;\n        }\n\n        case RULE_ONLY_TAGS:", "            return result;\n        }\n\n        case RULE_ONLY_TAGS:", "SEM")]),
+ ("only_tags", "RULE_ONLY_TAGS", True, 3, ["PEG_SUCCESS_RESTORES_POS"],
+  "only-tags: on success positional captures and accumulated text of the sub-pattern are discarded, tagged captures kept; depth restored",
+  [M("only-tags-keeps-captures", "            cap_load_keept(s, cs);\n            return result;\n        }\n\n        case RULE_GROUP:", "            return result;\n        }\n\n        case RULE_GROUP:", "SEM")]),
+ ("group", "RULE_GROUP", True, 3, ["PEG_SUCCESS_ONE_CAPTURE"],
+  "group: the sub-captures [saved, top) are copied from inside the capture stack and replaced by ONE array capture; mode restored on success and failure",
+  [M("group-mode-leak", "            s->mode = oldmode;\n            if (!result) return NULL;\n            int32_t num_sub_captures = s->captures->count - cs.cap;\n            JanetArray *sub_captures", "            if (!result) return NULL;\n            int32_t num_sub_captures = s->captures->count - cs.cap;\n            JanetArray *sub_captures", "RESTORE")]),
+ ("nth", "RULE_NTH", True, 3, ["PEG_SUCCESS_ONE_CAPTURE"],
+  "nth: picks a sub-capture only when it exists (index inside the capture stack), replaces the sub-captures by that ONE capture; mode restored",
+  [M("nth-index-off-by-one", "if (num_sub_captures > (int32_t) nth) {", "if (num_sub_captures >= (int32_t) nth) {", "pointer_dereference|array_bounds")]),
+ ("sub", "RULE_SUB", True, 3, [],
+  "sub: the sub-pattern runs on the window [text, window_end] and the outer window end is restored on success and failure; result is the window end",
+  [M("sub-window-not-restored", "            const uint8_t *next_text = peg_rule(s, rule_subpattern, text_start);\n            up1(s);\n            s->text_end = saved_end;", "            const uint8_t *next_text = peg_rule(s, rule_subpattern, text_start);\n            up1(s);", "RESTORE")]),
+ ("til", "RULE_TIL", True, 3, [],
+  "til: terminator attempts are cut back each time; the sub-pattern runs on the window ending at the terminator and the outer window end is restored on every path",
+  [M("til-window-not-restored", "            const uint8_t *matched = peg_rule(s, rule_subpattern, text);\n            up1(s);\n            s->text_end = saved_end;", "            const uint8_t *matched = peg_rule(s, rule_subpattern, text);\n            up1(s);", "RESTORE")]),
+ ("split", "RULE_SPLIT", True, 3, [],
+  "split: separator attempts are cut back; each chunk window lies inside the outer window, which is restored on every path including the failing ones",
+  [M("split-window-not-restored-on-failure", "                s->text_end = saved_end;\n                if (!subpattern_end) return NULL;", "                if (!subpattern_end) return NULL;", "RESTORE")]),
+ ("replace", "RULE_REPLACE", True, 3, ["PEG_SUCCESS_ONE_CAPTURE"],
+  "replace (/): the replacement sees exactly the sub-captures [saved, top) inside the capture stack, which are replaced by ONE capture; mode restored",
+  [M("replace-mode-leak", "            s->mode = oldmode;\n            if (!result) return NULL;\n\n            Janet cap = janet_wrap_nil();", "            if (!result) return NULL;\n\n            Janet cap = janet_wrap_nil();", "RESTORE")]),
+ ("matchtime", "RULE_MATCHTIME", True, 3, ["PEG_SUCCESS_ONE_CAPTURE"],
+  "cmt: the function sees exactly the sub-captures, they are dropped, and ONE capture is made only when the result is truthy; mode restored",
+  [M("cmt-keeps-subcaptures", "            cap_load_keept(s, cs);\n            if (rule[0] == RULE_MATCHTIME", "            if (rule[0] == RULE_MATCHTIME", "SEM")]),
+ ("error", "RULE_ERROR", True, 3, ["PEG_NO_SUCCESS"],
+  "error: never returns a match; when the sub-pattern fails the mode and depth are restored; the error position lies inside the text",
+  [M("error-mode-leak", "            s->mode = oldmode;\n            if (!result) return NULL;\n            if (s->captures->count > old_cap) {", "            if (!result) return NULL;\n            if (s->captures->count > old_cap) {", "RESTORE")]),
+ ("unref", "RULE_UNREF", True, 6, [],
+  "unref: compacts only the tagged captures made by the sub-pattern, inside the stacks, and leaves tags and tagged captures at one common height >= the entry height",
+  [M("unref-tagged-not-truncated", "            s->tagged_captures->count = w;\n            return result;", "            return result;", "wf_caps")]),
+]
+for name, op, rec, unwind, defs, clause, muts in OPS:
+    us = dict(HLOOPS)
+    for o, lid in TAILS.items():
+        us[lid] = 2 if o == op else 1
+    tailnote = ""
+    if op in TAILS:
+        tailnote = "; one tail call into ANY opcode except lenprefix (own unit) is followed, a second tail call is cut"
+    if op in TAILS and op != "RULE_IFNOT":
+        # quick variant: every tail call cut (the part of the opcode before its tail call, any operands)
+        opunit(name + ".notail", op, clause + " [paths up to, not including, the tail call of the last sub-rule]", muts, unwind=unwind, recurses=rec, tail_not=None,
+               extra_defines=["-D" + d for d in defs] + (["-DPEG_NO_SUCCESS"] if op in ("RULE_SEQUENCE", "RULE_IF") else []), unwindset=dict(HLOOPS, **{lid: 1 for lid in TAILS.values()}), tier="quick", timeout=200,
+               bound="bytecode <= 24 words (symbolic operands, wf_peg), text length symbolic (any length, window end and start offset); loops of peg_rule unwound %dx without unwinding assertion; tail calls cut; capture stacks <= 4 entries" % unwind)
+    opunit(name, op, clause, muts, unwind=unwind, recurses=rec, tail_not=("RULE_LENPREFIX" if op in TAILS else None),
+           extra_defines=["-D" + d for d in defs], unwindset=us,
+           tier=("thorough" if op in TAILS else "quick"), timeout=(580 if op in TAILS else 200),
+           bound="bytecode <= 24 words (symbolic, wf_peg), text length symbolic (any length, window end and start offset); loops of peg_rule unwound %dx without unwinding assertion%s; capture stacks <= 4 entries" % (unwind, tailnote))
+
+# lenprefix: FAILS on the pinned tree (genuine defect: mode not restored when the length pattern fails) - kept disabled
+opunit("lenprefix", "RULE_LENPREFIX",
+       "lenprefix: mode, depth and window restored on every path; the length capture is read inside the capture stack; failures after the length pattern leave the saved CapState",
+       [M("lenprefix-depth-leak", "            next_text = peg_rule(s, s->bytecode + rule[1], text);\n            up1(s);\n            if (NULL == next_text) return NULL;", "            next_text = peg_rule(s, s->bytecode + rule[1], text);\n            if (NULL == next_text) return NULL;", "RESTORE")],
+       tail_not=None, unwindset=dict(HLOOPS, **{lid: 1 for lid in TAILS.values()}), tier="thorough", timeout=300,
+       disabled_reason="genuine defect in /repo: RULE_LENPREFIX sets s->mode = PEG_MODE_NORMAL and returns NULL without restoring it when the length pattern fails (peg.c, `if (NULL == next_text) return NULL;` before `s->mode = oldmode;`). Obligation 'C12 RESTORE: mode equals its entry value on return' FAILS. Reproducer: (peg/match '(% (+ (lenprefix (number :d) \"a\") (* (<- \"ab\") (<- \"cd\")))) \"abcd\") gives @[\"\"] instead of @[\"abcd\"].")
 
 json.dump({"units": units}, open(os.path.join(V, "units", "C12.json"), "w"), indent=1)
 print("wrote %d units" % len(units))
